@@ -28,7 +28,7 @@ def run(tier, seed, res, lean):
     # node level: every EdgesBag.loopback call (connect with the function's bag, Context.reverse through the chain of contexts,
     # the final EdgesBag) recorded on the real code and replayed on CM.Model.Bag
     from .c02 import node_part
-    node = node_part(tier, seed + 1, res, lean, 'C10', ['ctx'], ops={'loopback'})
+    node = node_part(tier, seed + 1, res, lean, 'C10', ['ctx'], ops={'loopback', 'factory'})
     res.coverage['node_level'] = node
     res.coverage.update({
         'evaluations': stats['cases'], 'distinct_nontrivial': stats['distinct_nontrivial'], 'rule': RULE,
